@@ -149,7 +149,7 @@ func init() {
 	registry["C01"] = func() Check {
 		return &ProcCheck{Prop: "C01", Scenarios: "ClaimScenarios", MaxCrashes: 0,
 			IdealInvs:    []string{"Serializable", "NeverBricked"},
-			Only:         []string{"C01_serial", "C01_no_double", "C01_outcomes", "C01_winner_holds", "C02_nowait"},
+			Only:         []string{"C01_serial", "C01_no_double", "C01_outcomes", "C01_winner_holds", "C01_nowait"},
 			MaxRunsQuick: 1500}
 	}
 	registry["C02"] = func() Check {
